@@ -98,8 +98,8 @@ def discr_bool_edges(b, arg):
         if not p or place_proj(p):
             continue
         defs = b.whole_defs(p['l'])
-        trues = [d for d in defs if d[2] == 'assign' and const_val(d[3]['rv'].get('op')) == 1 and d[3]['rv']['k'] == 'use']
-        falses = [d for d in defs if d[2] == 'assign' and const_val(d[3]['rv'].get('op')) == 0 and d[3]['rv']['k'] == 'use']
+        trues = [d for d in defs if d[2] == 'assign' and d[3]['rv']['k'] == 'use' and const_val(d[3]['rv'].get('op')) == 1]
+        falses = [d for d in defs if d[2] == 'assign' and d[3]['rv']['k'] == 'use' and const_val(d[3]['rv'].get('op')) == 0]
         if len(trues) != 1 or len(defs) != len(trues) + len(falses):
             continue
         tb_ = trues[0][0]
